@@ -14,11 +14,15 @@ package inputrc
 //@   pure
 //@   ensures result == ite(i < end, r[i], 0)
 
+// fnsp / fend name the results of findNonSpace / findEnd (pure functions of their arguments)
+//@ spec fnsp(r []rune, i int, end int) int
+//@ spec fend(r []rune, i int, end int) int
 //@ func findNonSpace
 //@   props C12 C01 C13
 //@   terminates
 //@   requires 0 <= i && end <= len(r)
 //@   pure
+//@   defines fnsp
 //@   ensures result >= i && (i <= end ==> result <= end) && (i >= end ==> result == i)
 //@   ensures result < end ==> !uspace(r[result])
 //@   ensures i < end && !uspace(r[i]) ==> result == i
@@ -31,6 +35,7 @@ package inputrc
 //@   terminates
 //@   requires 0 <= i && end <= len(r)
 //@   pure
+//@   defines fend
 //@   ensures result >= i && (i <= end ==> result <= end) && (i >= end ==> result == i)
 //@   loop 1 invariant i >= i$0 && (i$0 <= end ==> i <= end) && (i$0 >= end ==> i == i$0)
 //@   loop 1 decreases end - i
@@ -238,10 +243,13 @@ package inputrc
 //@   ensures result != nil
 
 //@ func (*Parser).readSymbols
-//@   props C12 C01
+//@   props C12 C13 C01
 //@   terminates
 //@   requires p != nil && 0 <= pos && pos <= end && end == len(seq)
 //@   pure
+//@   let vstart = fnsp(seq, fend(seq, fnsp(seq, pos, end), end), end)
+//@   ensures @C13 [name-as-written] result0 == str(seq[fnsp(seq, pos, end):fend(seq, fnsp(seq, pos, end), end)])
+//@   ensures @C13 [unquoted-value-as-written] vstart < end && seq[vstart] != '"' && seq[vstart] != '\'' ==> result1 == str(seq[vstart:fend(seq, vstart, end)])
 
 //@ func (*Parser).readNext
 //@   props C12 C01
